@@ -46,6 +46,7 @@ from sigtools import modifiers
 
 LEVEL = 'proof'
 KNOWN_KEY = 'C11:raw-compare'
+WRAPS_KEY = 'C11:wraps-globals'
 NNAMES = 4
 # spellings 0..3 are names bound in every module; 4..7 are the string LITERALS 'T' ... 'X'
 # written as annotations.  A string object has the same number whether it occurs as the raw
@@ -66,6 +67,7 @@ POS = ('PO', 'PK')
 _COUNTER = itertools.count()
 _WORLDS = []
 inspect_empty = inspect.Parameter.empty
+RAISED = object()
 
 
 def mode_flag(mode, m):
@@ -82,7 +84,21 @@ TPL_MOD = 5        # pseudo module index of the template file (flag only; odd: p
 
 
 # ---------------------------------------------------------------- worlds
+def owner(world, spec):
+    """the function that DEFINED the annotations a function object carries: for a
+    functools.wraps / update_wrapper wrapper, the wrapped function"""
+    w = spec.get('wraps')
+    return world.funcs[w['of']] if w else spec
+
+
 def fn_source(spec, modalias):
+    w = spec.get('wraps')
+    if w:
+        target = '%s.f%d' % (modalias.get(w['cmod'], 'cm%d' % w['cmod']), w['of'])
+        body = 'def f%d(*args, **kwargs):\n    return %s(*args, **kwargs)\n' % (spec['fid'], target)
+        if w['how'] == 'wraps':
+            return '@functools.wraps(%s)\n%s' % (target, body)
+        return body + 'functools.update_wrapper(f%d, %s)\n' % (spec['fid'], target)
     parts = []
     prev = None
     for nm, k, de, sp in spec['params']:
@@ -171,7 +187,9 @@ class World(object):
                 src.append('from __future__ import annotations')
             src.append('from %s_vals import %s' % (self.uniq, ', '.join(
                 'v%d as %s' % (self.bindings[m][s], SPELL[s]) for s in range(NNAMES))))
-            for cm in sorted({sp['call']['cmod'] for sp in bymod[m] if sp.get('call')}):
+            src.append('import functools')
+            for cm in sorted({sp['call']['cmod'] for sp in bymod[m] if sp.get('call')}
+                             | {sp['wraps']['cmod'] for sp in bymod[m] if sp.get('wraps')}):
                 src.append('import %s as %s' % (names[cm], alias[cm]))
             src.append('')
             for spec in sorted(bymod[m], key=lambda s: s['fid']):
@@ -275,7 +293,7 @@ class World(object):
         return g
 
     def truth(self, spec, sp):
-        return None if sp is None else self.bindings[spec['mod']][sp]
+        return None if sp is None else self.bindings[owner(self, spec)['mod']][sp]
 
     def close(self):
         for n in self.modnames:
@@ -293,6 +311,8 @@ class World(object):
             sib = self.funcs[f].get('sib')
             if sib and sib['kind'] == 'rehome':
                 need.add(sib['of'])
+            if self.funcs[f].get('wraps'):
+                need.add(self.funcs[f]['wraps']['of'])
         return {'bindings': self.bindings, 'funcs': [self.funcs[f] for f in sorted(need)]}
 
 
@@ -313,7 +333,7 @@ def _annotate_spec(rng, ps, density):
     return out
 
 
-def gen_world(rng, nfam=14, nrand=10, ninner=10, nwrap=24, ntpl=10, nrehome=12):
+def gen_world(rng, nfam=14, nrand=10, ninner=10, nwrap=24, ntpl=10, nrehome=12, nwraps=20):
     bindings = [{s: rng.randint(1, NOBJ) for s in range(NNAMES)} for _ in range(NMOD)]
     # two spellings of one object in module 0; one spelling, different objects in modules 0 / 1
     bindings[0][2] = bindings[0][0]
@@ -356,6 +376,12 @@ def gen_world(rng, nfam=14, nrand=10, ninner=10, nwrap=24, ntpl=10, nrehome=12):
         funcs.append({'fid': next(fid), 'mod': m2, 'flagmod': orig['mod'], 'params': [list(p) for p in orig['params']],
                       'ret': orig['ret'], 'group': 'S', 'call': None, 'defname': 'f%d' % orig['fid'],
                       'sib': {'kind': 'rehome', 'of': orig['fid']}})
+    # functools.wraps / update_wrapper wrappers defined in ANOTHER module (own binding table)
+    for wrapped in rng.sample(plain, min(nwraps, len(plain))):
+        funcs.append({'fid': next(fid), 'mod': rng.choice([3, 4]), 'params': [list(p) for p in wrapped['params']],
+                      'ret': wrapped['ret'], 'group': 'V', 'call': None,
+                      'wraps': {'of': wrapped['fid'], 'cmod': wrapped['mod'],
+                                'how': rng.choice(['wraps', 'update_wrapper'])}})
     for _ in range(nwrap):
         m = rng.choice([3, 4])
         outer = [p for p in random_sig(rng, 'xyz', 2, star_names=(('args', 'kwargs'),)) if p[1] not in ('VP', 'VK')]
@@ -381,7 +407,7 @@ def gen_cases(rng, world, n):
     for f in fs:
         groups.setdefault(f['group'], []).append(f)
     fams = [g for g in groups if g.startswith('A')]
-    plain = [f for f in fs if f['group'] != 'W']
+    plain = [f for f in fs if f['group'] not in ('W', 'V')]
     outers = [f for f in fs if f['group'] in ('B',) or f['group'].startswith('A')]
     cases = []
 
@@ -438,10 +464,40 @@ def gen_cases(rng, world, n):
         return {'op': 'annot', 'f': [b_], 'prime': [a], 'anns': anns,
                 'retv': rng.randint(1, NOBJ) if not anns else None}
 
+    def wraps_case():
+        """a wraps-wrapper through signatures.signature, sigtools.signature and the algebra"""
+        w = rng.choice(groups['V'])
+        k2 = rng.random()
+        if k2 < 0.25:
+            return {'op': 'sig', 'f': [w['fid']]}
+        if k2 < 0.5:
+            return {'op': 'wauto', 'f': [w['fid']]}
+        if k2 < 0.6:
+            ns = kwnames(w)
+            return {'op': 'mask', 'f': [w['fid']], 'n': rng.randint(0, 2),
+                    'names': rng.sample(ns, rng.randint(0, min(1, len(ns)))), 'flags': [False] * 4}
+        if k2 < 0.7:
+            ns = kwnames(w)
+            kw = rng.sample(ns, rng.randint(0, min(1, len(ns))))
+            return {'op': 'partial', 'f': [w['fid']], 'n': rng.randint(0, 1), 'kw': [[x, 5 + j] for j, x in enumerate(kw)]}
+        if k2 < 0.85:
+            g_ = world.funcs[w['wraps']['of']]['group']
+            other = rng.choice(groups[g_] if g_ in groups and not g_.startswith('S') else groups['B'])
+            f = [w['fid'], other['fid']]
+            if rng.random() < 0.5:
+                f.reverse()
+            return {'op': 'merge', 'f': f}
+        o = rng.choice(outers)
+        return {'op': 'forwards', 'f': [o['fid'], w['fid']], 'n': 0, 'names': [],
+                'ha': False, 'hk': False, 'uva': True, 'uvk': True, 'partial': False}
+
     for _ in range(n):
         k = rng.random()
         if sibsets and rng.random() < 0.12:
             cases.append(sibling_case())
+            continue
+        if groups.get('V') and rng.random() < 0.08:
+            cases.append(wraps_case())
             continue
         if k < 0.30:
             cases.append({'op': 'merge', 'f': related(rng.choice([2, 2, 2, 3]))})
@@ -514,7 +570,7 @@ def impl_call(world, case, mode):
         world.note(f)
     if op == 'sig':
         return sg(fs[0])
-    if op == 'ssig':
+    if op in ('ssig', 'wauto'):
         return sigtools.signature(F[fs[0]])
     if op == 'merge':
         return PS.merge(*[sg(f) for f in fs])
@@ -604,13 +660,30 @@ def run_impl(world, case, mode):
             ans['uret'] = c_uann(world, getattr(sig, 'upgraded_return_annotation', None))
             svs = []
             svobj = []
+            raised = []
+
+            def value_of(u, what):
+                try:
+                    return u.source_value()
+                except Exception as e:  # noqa: BLE001
+                    raised.append('%s: %s: %s' % (what, type(e).__name__, str(e)[:80]))
+                    return RAISED
             for p in sig.parameters.values():
-                v = p.upgraded_annotation.source_value()
+                v = value_of(p.upgraded_annotation, p.name)
                 svobj.append(v)
-                svs.append(c_ann(world, v))
+                svs.append(None if v is RAISED else c_ann(world, v))
             ans['svs'] = svs
-            rv = sig.upgraded_return_annotation.source_value()
-            ans['svr'] = c_ann(world, rv)
+            rv = value_of(sig.upgraded_return_annotation, 'return')
+            ans['svr'] = None if rv is RAISED else c_ann(world, rv)
+            if raised:
+                # the model has no exceptions: an unresolvable wrapper evaluates to None there, and
+                # evaluated() is the parameters with these values.  The raise itself is reported.
+                notes.append(('C11:eval-raises', 'source_value() raised for ' + '; '.join(raised)))
+                ans['raised'] = True
+                ans['etext'] = '<evaluated() raises: %s>' % '; '.join(raised)
+                ans['eps'] = [(p[0], p[1], p[2], sv, p[4]) for p, sv in zip(ans['params'], svs)]
+                ans['eret'] = ans['svr']
+                return ans
             ev = sig.evaluated()
             ans['etext'] = str(ev)
             ans['eps'] = canon_params(world, ev)
@@ -676,7 +749,8 @@ def c_b(x):
 def raw_of(world, spec, sp, mode):
     if sp is None:
         return None
-    return SPELL_BASE + sp if spec_flag(mode, spec) else world.bindings[spec['mod']][sp]
+    o = owner(world, spec)      # the raw annotation is what the DEFINING function's code stores
+    return SPELL_BASE + sp if spec_flag(mode, o) else world.bindings[o['mod']][sp]
 
 
 def sig_term(world, fid, mode):
@@ -691,6 +765,17 @@ def model_term(world, case, mode):
     fs = case['f']
     op = case['op']
     T = lambda f: sig_term(world, f, mode)  # noqa: E731
+    if op == 'wauto' or (op == 'ssig' and world.funcs[fs[0]].get('wraps')):
+        # sigtools.signature of a wraps-wrapper: its own ( *args, **kwargs) signature (with __wrapped__
+        # removed, but __annotations__ copied) forwards to the wrapped function; UnknownForwards ->
+        # the plain signature, which follows __wrapped__
+        spec = world.funcs[fs[0]]
+        own = '(upgrade_sig (Some %s) %d [%s] %s)' % (
+            c_b(spec_flag(mode, spec)), fs[0],
+            '; '.join('(%d, %s, None, %s)' % (nm, k, c_opt(raw_of(world, spec, sp, mode))) for nm, k, de, sp in own_view(spec)),
+            c_opt(raw_of(world, spec, spec['ret'], mode)))
+        return ('(Ok (match (do f <- forwards %s %s 0%%nat [] false false true true false ;; merge [f]) with '
+                'Ok r => r | Err _ => %s end))' % (own, T(spec['wraps']['of']), T(fs[0])))
     if op in ('sig', 'ssig'):
         return '(Ok %s)' % T(fs[0])
     if op == 'merge':
@@ -805,6 +890,14 @@ def model_disagreements(world, items, shard=400):
 
 
 # ---------------------------------------------------------------- ground truth (generator knowledge)
+def own_view(spec):
+    """the parameters of a wraps-wrapper's OWN code, (*args, **kwargs), with the
+    annotations the copied __annotations__ gives them by name"""
+    byname = {nm: sp for nm, k, de, sp in spec['params']}
+    return [[id_of_name('args'), 'VP', None, byname.get(id_of_name('args'))],
+            [id_of_name('kwargs'), 'VK', None, byname.get(id_of_name('kwargs'))]]
+
+
 def inputs_of(world, case):
     """The input signatures of a case with what the generator knows:
     per parameter (name, kind, spelling or None, truth, fixed) where truth is the
@@ -813,10 +906,14 @@ def inputs_of(world, case):
     fids = list(case['f'])
     if case['op'] == 'auto':
         fids.append(world.funcs[fids[0]]['call']['callee'])
+    if case['op'] == 'wauto':
+        fids.append(world.funcs[fids[0]]['wraps']['of'])
     ins = []
     for idx, fid in enumerate(fids):
         spec = world.funcs[fid]
         ps = [[nm, k, sp, world.truth(spec, sp), False] for nm, k, de, sp in spec['params']]
+        if case['op'] == 'wauto' and idx == 0:
+            ps = [[nm, k, sp, world.truth(spec, sp), False] for nm, k, de, sp in own_view(spec)]
         r = world.truth(spec, spec['ret'])
         if case['op'] == 'annot' and idx == 0:
             given = dict((x, v) for x, v in case['anns'])
@@ -825,7 +922,8 @@ def inputs_of(world, case):
                     p[2], p[3], p[4] = None, given[p[0]], True
             if case['retv'] is not None:
                 r = case['retv']
-        ins.append({'fid': fid, 'mod': spec['mod'], 'flagmod': spec.get('flagmod', spec['mod']), 'params': ps, 'ret': r})
+        o = owner(world, spec)
+        ins.append({'fid': fid, 'mod': o['mod'], 'flagmod': o.get('flagmod', o['mod']), 'params': ps, 'ret': r})
     return ins
 
 
@@ -966,13 +1064,18 @@ def show_case(world, case):
                 ', FunctionType(f%d.__code__, globals of module %d)' % (sp['sib']['of'], sp['mod'])
         if sp.get('reexport') is not None:
             sib += ', __module__ set to module %d' % sp['reexport']
-        return 'f%d = ' % fid + fn_source(sp, {m: 'cm%d' % m for m in range(NMOD)}).split(':\n')[0] + \
+        if sp.get('wraps'):
+            sib += ', functools.%s around f%d (defined in module %d)' % (sp['wraps']['how'], sp['wraps']['of'], sp['wraps']['cmod'])
+        return 'f%d = ' % fid + fn_source(sp, {m: 'cm%d' % m for m in range(NMOD)}).split(':\n')[0].replace('\n', ' ') + \
             '  [globals %d: %s%s]' % (sp['mod'], ', '.join(
                 '%s=v%d' % (SPELL[s], o) for s, o in sorted(world.bindings[sp['mod']].items()) if s < NNAMES), sib)
     extra = {k: v for k, v in case.items() if k not in ('f', 'op', 'prime')}
     fids = list(case['f'])
     if case['op'] == 'auto':
         fids.append(world.funcs[fids[0]]['call']['callee'])
+    for f in list(fids):
+        if world.funcs[f].get('wraps') and world.funcs[f]['wraps']['of'] not in fids:
+            fids.append(world.funcs[f]['wraps']['of'])
     first = ''
     if case.get('prime'):
         first = ' after first retrieving signature(%s)' % ' ; '.join(
@@ -1007,6 +1110,8 @@ def examine(world, cases, rep=None):
             if not agree[m]:
                 breaks.append((c, m, dis[idx], row[m]))
             for key, what in oracle(world, c, m, row[m], alrc.get(ci, False)):
+                if key in WRAPS_SYMPTOMS and agree[m] and wraps_involved(world, c):
+                    key = WRAPS_KEY
                 viol.append((key, '[mode %s] %s -> %s: %s' % (m, show_case(world, rcases[ci]), row[m].get('text'), what), rcases[ci]))
         stats['ok' if row['e']['ok'] else 'err'] += 1
         if row['e']['ok']:
@@ -1023,9 +1128,28 @@ def examine(world, cases, rep=None):
                 row[m].get('etext', row[m].get('err')), row['e'].get('etext', row['e'].get('err')))
             if pair is not None and agree[m] and agree['e']:
                 viol.append((KNOWN_KEY, what + '  (raw equality differs from value equality on %s)' % pair, rcases[ci]))
+            elif agree[m] and agree['e'] and wraps_involved(world, c):
+                viol.append((WRAPS_KEY, what, rcases[ci]))
             else:
                 viol.append(('C11:twin', what, rcases[ci]))
     return viol, breaks, stats
+
+
+# what the known finding C11:wraps-globals looks like on one answer
+WRAPS_SYMPTOMS = ('C11:wrong-context', 'C11:lost', 'C11:return', 'C11:eval-raises')
+
+
+def wraps_involved(world, case):
+    """the delimited class of C11:wraps-globals: an input of the case is retrieved from a
+    functools.wraps / update_wrapper wrapper (it carries __wrapped__ and the copied
+    __annotations__ of the wrapped function) whose own globals are not the wrapped
+    function's.  Together with `the model, which upgrades every raw annotation against the
+    object whose signature was asked for, predicted the implementation's answer exactly`."""
+    for f in case['f']:
+        sp = world.funcs[f]
+        if sp.get('wraps') and sp['mod'] != world.funcs[sp['wraps']['of']]['mod']:
+            return True
+    return False
 
 
 def case_key(world, c):
@@ -1085,6 +1209,9 @@ def all_fids(world, c):
     fids = list(c['f'])
     if c['op'] == 'auto':
         fids.append(world.funcs[fids[0]]['call']['callee'])
+    for f in list(fids):
+        if world.funcs[f].get('wraps'):
+            fids.append(world.funcs[f]['wraps']['of'])
     return fids + [f for f in c.get('prime', ()) if f not in fids]
 
 
@@ -1130,4 +1257,18 @@ KNOWN_WITNESS = {'cases': [
         'funcs': [{'fid': 100, 'mod': 0, 'params': [[1, 'PK', None, 0]], 'ret': None, 'group': 'B', 'call': None},
                   {'fid': 101, 'mod': 0, 'params': [[1, 'PK', None, 2]], 'ret': None, 'group': 'B', 'call': None}],
         'case': {'op': 'merge', 'f': [100, 101]}},
+]}
+
+
+# witness of the known finding C11:wraps-globals: f100(a: T) -> T defined in module 0 (T = v1),
+# wrapped with functools.wraps by f101 defined in module 3 (T = v2); retrieved through
+# signatures.signature (follows __wrapped__) and through sigtools.signature (discovery)
+_WB = [{'0': 1, '1': 2, '2': 1, '3': 3}, {'0': 2, '1': 2, '2': 3, '3': 3}, {'0': 1, '1': 1, '2': 1, '3': 1},
+       {'0': 2, '1': 1, '2': 1, '3': 1}, {'0': 1, '1': 1, '2': 1, '3': 1}]
+_WF = [{'fid': 100, 'mod': 0, 'params': [[1, 'PK', None, 0]], 'ret': 0, 'group': 'B', 'call': None},
+       {'fid': 101, 'mod': 3, 'params': [[1, 'PK', None, 0]], 'ret': 0, 'group': 'V', 'call': None,
+        'wraps': {'of': 100, 'cmod': 0, 'how': 'wraps'}}]
+WRAPS_WITNESS = {'cases': [
+    {'bindings': _WB, 'funcs': _WF, 'case': {'op': 'sig', 'f': [101]}},
+    {'bindings': _WB, 'funcs': _WF, 'case': {'op': 'wauto', 'f': [101]}},
 ]}
